@@ -410,6 +410,109 @@ let fmt_family (dir : string) =
     | _ -> failwith ("bad line: " ^ line)) lines;
   close_out oc
 
+
+(* ---------------- family "conc" ---------------- *)
+(* The search for a linearization is plain OCaml and untrusted: whatever it finds is
+   validated by the extracted Actor.check_lin before ACCEPT is printed. *)
+let conc_family (dir : string) =
+  let lines = read_lines (Filename.concat dir "cases.txt") in
+  let oc = open_out (Filename.concat dir "model.txt") in
+  let k = ref 0 and s0 = ref None and hist = ref [] and hung = ref false in
+  let parse_op (toks : string list) : hkind =
+    match toks with
+    | ["Incr"; n] -> HOp (IncrInt64 (cz n))
+    | ["EIncr"; n; d] -> HOp (EwmaIncrInt64 (cz n, cz d))
+    | ["SetCur"; c] -> HOp (SetCurrent (cz c))
+    | ["ESetCur"; c; d] -> HOp (EwmaSetCurrent (cz c, cz d))
+    | ["SetTotal"; t; c] -> HOp (SetTotal (cz t, sb c))
+    | ["Enable"] -> HOp EnableTriggerComplete
+    | ["SetRefill"; a] -> HOp (SetRefill (cz a))
+    | ["Abort"; d] -> HOp (Abort (sb d))
+    | ["GetCur"] -> HOp GetCurrent
+    | ["GetComp"] -> HOp GetCompleted
+    | ["GetAb"] -> HOp GetAborted
+    | ["Shutdown"] -> HShutdown
+    | _ -> failwith ("bad op: " ^ String.concat " " toks) in
+  let parse_out = function
+    | ["-"] -> ONone
+    | ["I"; n] -> OInt (cz n)
+    | ["B"; b] -> OBool (sb b)
+    | l -> failwith ("bad out: " ^ String.concat " " l) in
+  let rec split_eq acc = function
+    | "=" :: rest -> (List.rev acc, rest)
+    | x :: rest -> split_eq (x :: acc) rest
+    | [] -> failwith "no = in h line" in
+  let key (s : bst) =
+    String.concat "," [zs s.total; zs s.current; zs s.refill; bs s.trig; bs s.aborted; bs s.rm; bs s.cancelled; bs s.exited] in
+  let solve (s0 : bst) (h : hop array) : litem list option =
+    let n = Array.length h in
+    let inv = Array.map (fun c -> zi c.h_inv) h and ret = Array.map (fun c -> zi c.h_ret) h in
+    let dead = Hashtbl.create 1024 in
+    let rec go (mask : int) (s : bst) : litem list option =
+      if mask = (1 lsl n) - 1 then Some [] else
+      let kk = (mask, key s) in
+      if Hashtbl.mem dead kk then None else begin
+        let res = ref None in
+        (* minimal calls: no unused call returned before this one was invoked *)
+        let i = ref 0 in
+        while !res = None && !i < n do
+          let ii = !i in
+          if mask land (1 lsl ii) = 0 then begin
+            let minimal = ref true in
+            for j = 0 to n - 1 do
+              if j <> ii && mask land (1 lsl j) = 0 && ret.(j) < inv.(ii) then minimal := false
+            done;
+            if !minimal then
+              List.iter (fun d ->
+                if !res = None then
+                  match spec_call s h.(ii).h_kind d h.(ii).h_out with
+                  | Some s' ->
+                      (match go (mask lor (1 lsl ii)) s' with
+                       | Some rest -> res := Some (LOp (cnat ii, d) :: rest)
+                       | None -> ())
+                  | None -> ()) [false; true]
+          end;
+          incr i
+        done;
+        if !res = None && terminal s && not s.exited && not s.cancelled then
+          (match go mask { s with cancelled = true } with
+           | Some rest -> res := Some (LCancel :: rest) | None -> ());
+        if !res = None && s.cancelled && not s.exited then
+          (match go mask (bexit s) with
+           | Some rest -> res := Some (LExit :: rest) | None -> ());
+        if !res = None then Hashtbl.replace dead kk ();
+        !res
+      end in
+    go 0 s0 in
+  let finish () =
+    (match !s0 with
+     | None -> ()
+     | Some s ->
+       let h = Array.of_list (List.rev !hist) in
+       if !hung then Printf.fprintf oc "%d REJECT hang\n" !k
+       else if Array.length h > 60 then Printf.fprintf oc "%d REJECT history-too-long\n" !k
+       else
+         (match solve s h with
+          | Some cert ->
+              if check_lin (Array.to_list h) s cert then Printf.fprintf oc "%d ACCEPT %d %d\n" !k (Array.length h) (List.length cert)
+              else Printf.fprintf oc "%d REJECT certificate-refused-by-checker\n" !k
+          | None -> Printf.fprintf oc "%d REJECT no-linearization\n" !k));
+    s0 := None; hist := []; hung := false in
+  List.iter (fun line ->
+    match tokens line with
+    | ["case"; kk; mode; total; _n] ->
+        k := int_of_string kk; hist := []; hung := false;
+        s0 := Some (binit (cz total) (mode = "0") false false)
+    | "p" :: _ -> ()
+    | "h" :: client :: inv :: ret :: rest ->
+        let (op, out) = split_eq [] rest in
+        hist := { h_client = cz client; h_inv = cz inv; h_ret = cz ret; h_kind = parse_op op; h_out = parse_out out } :: !hist
+    | "HANG" :: _ -> hung := true
+    | ["end"] -> finish ()
+    | [] -> ()
+    | _ -> failwith ("bad line: " ^ line)) lines;
+  close_out oc
+
 let () =
   match Array.to_list Sys.argv with
   | [_; "bar"; dir] -> bar_family dir
@@ -417,4 +520,5 @@ let () =
   | [_; "frames"; dir] -> frames_family dir
   | [_; "proxy"; dir] -> proxy_family dir
   | [_; "fmt"; dir] -> fmt_family dir
+  | [_; "conc"; dir] -> conc_family dir
   | _ -> prerr_endline "usage: mpbmodel <family> <dir>"; exit 2
